@@ -26,14 +26,24 @@ theorem cmpMask_spec {a b : ED} (ha : ECanon a) (hb : ECanon b) (hna : NZ a) (hn
     have h5 : toInt a > toInt b := by omega
     simp [h, h1, h2, h3, h4]
 
-/-- `<<=` inserts `k` zero digits: the magnitude is multiplied by 10^k. -/
-theorem shl_spec (x : ED) (k : Nat) : toNat (shl x k).d = toNat x.d * 10 ^ k ∧ (shl x k).neg = x.neg := by
+/-- `<<=` inserts `k` zero digits below a non-zero value (zero stays `0`): the magnitude is multiplied by 10^k, the flag is
+    kept, a canonical object stays canonical (no padded zero). -/
+theorem shl_spec (x : ED) (k : Nat) : toNat (shl x k).d = toNat x.d * 10 ^ k ∧ (shl x k).neg = x.neg ∧
+    (ECanon x → ECanon (shl x k)) := by
   unfold shl
   by_cases h : k = 0
   · simp [h]
   · simp only [h, if_false]
-    rw [toNat_append, toNat_replicate_zero]
-    simp; ring
+    by_cases hz : isZero x = true
+    · have h0 := (isZero_iff x).mp hz
+      simp [hz, h0]
+    · simp only [hz, Bool.false_eq_true, if_false]
+      refine ⟨?_, trivial, ?_⟩
+      · rw [toNat_append, toNat_replicate_zero]; simp; ring
+      · intro hc
+        have hpos : 0 < toNat x.d := by
+          apply Nat.pos_of_ne_zero; intro h0; exact hz ((isZero_iff x).mpr h0)
+        exact (ecanon_shifted hc.1 hc.2 hpos k).1
 
 theorem toNat_drop (k : Nat) {l : List Nat} (hl : DOk l) (hk : k ≤ l.length) : toNat (l.drop k) = toNat l / 10 ^ k := by
   have h : toNat l = toNat (l.take k) + 10 ^ (l.take k).length * toNat (l.drop k) := by
